@@ -150,6 +150,16 @@ def make_unitary(kind: str, k: int, seed: int) -> np.ndarray:
         z = rng.normal(size=(k, k))
         q, r = np.linalg.qr(z)
         return (q * np.sign(np.diag(r))).astype(complex)
+    if kind == "hadamard":
+        # Sylvester matrix on the largest power-of-two block, identity elsewhere: all non-zero entries have exactly
+        # the same magnitude, so sums of entries cancel exactly in floating point
+        b = 1 << (k.bit_length() - 1)
+        h = np.array([[1.0]])
+        while h.shape[0] < b:
+            h = np.block([[h, h], [h, -h]])
+        m = np.eye(k, dtype=complex)
+        m[:b, :b] = h * (1.0 / math.sqrt(b))
+        return m
     if kind.startswith("near"):
         eps = {"near6": 1e-6, "near9": 1e-9, "near12": 1e-12}[kind]
         h = rng.normal(size=(k, k)) + 1j * rng.normal(size=(k, k))
@@ -160,7 +170,7 @@ def make_unitary(kind: str, k: int, seed: int) -> np.ndarray:
 
 
 UNITARY_KINDS = ["haar", "identity", "perm", "diag", "dft", "permphase", "block",
-                 "real", "near6", "near9", "near12"]
+                 "real", "near6", "near9", "near12", "hadamard"]
 
 
 def bs_block(r: float, conv: str) -> np.ndarray:
